@@ -137,6 +137,25 @@ class PathFacts:
                     c = int(x[2])
                     if (vals and c not in vals) or (not vals and c in allv):
                         self.infeasible = True      # the path itself fixed this value to a constant that contradicts the branch
+                if isinstance(x, tuple) and x and x[0] == 'discr':
+                    y = x[1]
+                    while isinstance(y, tuple) and y and y[0] in ('ref', 'deref'):
+                        y = y[1]
+                    if isinstance(y, tuple) and y and y[0] == 'call' and str(y[4]).endswith('Try::branch') or \
+                            (isinstance(y, tuple) and y and y[0] == 'call' and str(y[4]).endswith('as std::ops::Try>::branch')):
+                        # `?` on a Result / Option literal built on this path: Ok / Some continue (0), Err / None break (1)
+                        z = y[2][0] if y[2] else ('?',)
+                        while isinstance(z, tuple) and z and z[0] in ('ref', 'deref'):
+                            z = z[1]
+                        if isinstance(z, tuple) and z and z[0] == 'agg' and z[1] == 'adt':
+                            nm = str(z[2])
+                            c = 0 if nm.endswith(('Result::Ok', 'Option::Some')) else (1 if nm.endswith(('Result::Err', 'Option::None')) else None)
+                            if c is not None and ((vals and c not in vals) or (not vals and c in allv)):
+                                self.infeasible = True
+                    if isinstance(y, tuple) and y and y[0] == 'agg' and y[1] == 'adt' and len(y) > 5 and isinstance(y[5], int):
+                        c = y[5]        # the scrutinee is an enum literal built on this very path (e.g. returned by an inlined helper)
+                        if (vals and c not in vals) or (not vals and c in allv):
+                            self.infeasible = True
         last = self.path[-1]
         self.returns = body_.blocks[last]['term']['t'] == 'return'
 
